@@ -537,10 +537,12 @@ func (u *Upgrader) Upgrade(w http.ResponseWriter, r *http.Request, responseHeade
 		return nil, err
 	}
 
+	// On the connection the websocket reads from: after a transfer to the poller
+	// that is the new nbio.Conn, the hijacked one has been given up.
 	if u.KeepaliveTime > 0 {
-		_ = conn.SetReadDeadline(time.Now().Add(u.KeepaliveTime))
+		_ = wsc.Conn.SetReadDeadline(time.Now().Add(u.KeepaliveTime))
 	} else {
-		_ = conn.SetReadDeadline(time.Time{})
+		_ = wsc.Conn.SetReadDeadline(time.Time{})
 	}
 
 	if wsc.openHandler != nil {
